@@ -6,4 +6,4 @@ NONTRIVIAL = {"C01": ["dec_ok", "key_creations"], "C02": ["faulted_ops", "key_cr
               "C09": ["key_creations", "faulted_ops", "metastore_reads"], "C10": ["metastore_reads", "dec_ok"], "C20": ["enc_ok", "dec_ok"]}
 
 def run(ctx):
-    return envelope.run(ctx, "C04", ["AsherahVerif.Props.C04"], NONTRIVIAL["C04"], modes=(('boundaries',), ('allboundaries',)))
+    return envelope.run(ctx, "C04", ["AsherahVerif.Props.C04", "AsherahVerif.Props.C04b"], NONTRIVIAL["C04"], modes=(('boundaries',), ('allboundaries',)))
